@@ -91,6 +91,9 @@ void deliver(int cb, const Summary & s);
 // What every listener of the dispatch in progress must receive. It is built by the configuration's dispatch()
 // (it depends on the argument types) before the library is entered, and published here for that dispatch.
 const Summary * g_expect = nullptr;
+// the listener objects keep a count of their own calls: it shows whether the object that ran is the registered one
+// (its state survives from call to call) or a copy made for the occasion
+int g_ownCalls = 0;
 struct ExpectScope
 {
 	const Summary * saved;
@@ -102,10 +105,12 @@ struct ExpectScope
 struct LVal : LedgeredT<2>
 {
 	explicit LVal(int cb) : LedgeredT<2>(kCbBase + cb) {}
+	mutable int ownCalls = 0;
 	template <typename ...A> void operator() (A ...a) const {
 		touch();
 		Summary s;
 		descAll(s, a...);
+		g_ownCalls = ++ownCalls;
 		deliver(id - kCbBase, s);
 		steal(std::move(a)...);
 	}
@@ -114,10 +119,12 @@ struct LVal : LedgeredT<2>
 struct LRef : LedgeredT<2>
 {
 	explicit LRef(int cb) : LedgeredT<2>(kCbBase + cb) {}
+	mutable int ownCalls = 0;
 	template <typename ...A> void operator() (const A & ...a) const {
 		touch();
 		Summary s;
 		descAll(s, a...);
+		g_ownCalls = ++ownCalls;
 		deliver(id - kCbBase, s);
 	}
 };
@@ -466,6 +473,7 @@ struct Interp
 		(void)depth;
 	}
 
+	std::vector<int> callsOf; // per listener id: calls so far
 	void onCall(int cb, const Summary & s) {
 		if(failed) return;
 		if(frames.empty()) { fail("disp.call.spurious", dom(), "listener cb" + std::to_string(cb) + " called outside any dispatch"); return; }
@@ -480,6 +488,12 @@ struct Interp
 			return;
 		}
 		f.inv.advance(due);
+		if((size_t)cb >= callsOf.size()) callsOf.resize((size_t)cb + 1, 0);
+		if(++callsOf[(size_t)cb] != g_ownCalls) {
+			fail("disp.listener.state", dom(), "listener cb" + std::to_string(cb) + " has been called " + std::to_string(callsOf[(size_t)cb]) + " time(s), but the object that ran counts " + std::to_string(g_ownCalls)
+				+ " call(s) of its own: the dispatch did not invoke the registered listener object (state kept inside a listener is lost)");
+			return;
+		}
 		if(! g_expect || s != *g_expect) {
 			std::ostringstream m;
 			m << "listener cb" << cb << " (call #" << f.inv.calls << " of dispatch k" << f.key << ") received [";
